@@ -6,7 +6,7 @@ check("C17",
   "(2) C17_grideval_spec: the returned ranges are the grid lengths, every grid entry equals the sum over ALL coefficients of coefficient x product over dimensions of the right-continuous "
   "Cox-de Boor function at the grid abscissa, the array is 0 outside the ranges, and an entry that is not listed is 0 (and so is the sum there); (3) C17_agrees_pointwise / "
   "C17_spec_is_pointwise: at every grid point where center lookup succeeds and x_d < knots_d[naxes_d] in every dimension the entry IS EvalModel.ndsplineeval at that point (through the C01 "
-  "theorem). Tie, every run: bsplinebasis called directly vs the model at binary64 BITWISE; splinetable::grideval and the C splinetable_grideval vs the model: ranges and the stored index "
+  "theorem); C17_agrees_pointwise_upper extends this to points AT AND ABOVE the upper end of full support in every dimension of order >= 1 with strictly increasing knots (B-splines of order >= 1 are continuous: C17_Upper.Bfun_sides_agree). Tie, every run: bsplinebasis called directly vs the model at binary64 BITWISE; splinetable::grideval and the C splinetable_grideval vs the model: ranges and the stored index "
   "set exactly, values within K*2^-53*sum|terms| of the exact rational value; the extracted model on Qc equals the extracted specification exactly (executed instance of the theorem); and the "
   "property itself is judged on the implementation: every grid point strictly inside the knot range vs real pointwise ndsplineeval<double> and <float>, unlisted points as 0.",
   "Partial: (a) the rounding gap between the exact-field and binary64 instances of the model is measured (K = 16*sum(order+2) + 2*prod(order+1) ulps of sum|terms|), not proved; CHOLMOD's "
